@@ -141,6 +141,18 @@ impl ast::File {
                     )
                 })?;
         }
+        // Attribute shorthands are defined outside of any stanza, so there is no query match that
+        // a capture in their body could refer to.
+        for shorthand in self.shorthands.iter() {
+            for attribute in &shorthand.attributes {
+                if let Some(capture) = find_capture(&attribute.value) {
+                    return Err(CheckError::UndefinedSyntaxCapture(
+                        capture.name.to_string(),
+                        capture.location,
+                    ));
+                }
+            }
+        }
         let file_query = self.query.as_ref().unwrap();
         for (index, stanza) in self.stanzas.iter_mut().enumerate() {
             stanza.check(&globals, file_query, index)?;
@@ -151,6 +163,24 @@ impl ast::File {
 
 //-----------------------------------------------------------------------------
 // Stanza
+
+/// Returns the first capture that occurs in an expression, if any.
+fn find_capture(expression: &ast::Expression) -> Option<&ast::Capture> {
+    match expression {
+        ast::Expression::Capture(capture) => Some(capture),
+        ast::Expression::ListLiteral(expr) => expr.elements.iter().find_map(find_capture),
+        ast::Expression::SetLiteral(expr) => expr.elements.iter().find_map(find_capture),
+        ast::Expression::ListComprehension(expr) => {
+            find_capture(&expr.value).or_else(|| find_capture(&expr.element))
+        }
+        ast::Expression::SetComprehension(expr) => {
+            find_capture(&expr.value).or_else(|| find_capture(&expr.element))
+        }
+        ast::Expression::Variable(ast::Variable::Scoped(variable)) => find_capture(&variable.scope),
+        ast::Expression::Call(expr) => expr.parameters.iter().find_map(find_capture),
+        _ => None,
+    }
+}
 
 impl ast::Stanza {
     fn check(
